@@ -114,6 +114,8 @@ func execConc(op string, a []string) vlib.Res {
 		return vlib.Res{Impl: "ok", Oracle: "-"}
 	case "stall":
 		return execStall(a)
+	case "dup":
+		return execDup(a)
 	case "run":
 		if len(a) != 6 {
 			break
